@@ -19,7 +19,13 @@ parity (`field_component_parity`, `mirror_pairs_on_plane`): E_y, E_z, H_x are sa
   C33_reduceCfg_y / _z       symmetry plane normal to y / z: transported along the cyclic relabelling of the axes
                              (`FdtdxLemmas/C33Rot.lean`: the Yee step commutes with `rotV`), statements read through `rotV`
 
-PML far faces and detector records are not in the Yee model: implementation-side oracle only.
+  mirror_invariant(_y,_z)    mirror-symmetric far faces (PEC layer at the min face ↔ the zero right ghost at the max face, PMC at
+                             both or none): parity-symmetric data stay parity-symmetric for ALL steps, each axis
+  C33_symmetric_far_all_steps  … and then the reduced run equals the upper half for all steps (no light cone)
+  C33_two_planes_xy, C33_three_planes   quarter / octant domains: the one-plane theorems composed (x, then y, then z)
+  (FdtdxProps/C33Cpml.lean)  the parity window also survives the CPML step `forwardP` as long as no PML box meets it
+
+Reduced-vs-full agreement WITH PML objects and detector records: implementation-side oracle only.
 -/
 import FdtdxLemmas.C33Rot
 import Mathlib.Tactic.NormNum
@@ -236,6 +242,136 @@ theorem C33_reduceCfg_z (cf : Cfg K) (m : Nat) (hm : 0 < m) (hn : cf.nz = 2 * m)
     steps_rot, steps_rot] at key
   exact key
 
+/-! ### mirror-symmetric far faces: the parity is an invariant of the full run (no light cone) -/
+
+/-- **mirror_invariant_step**: with mirror-symmetric far faces one `forward` step of the full domain maps
+parity-symmetric states (all `m` pairs) to parity-symmetric states — no loss of window. -/
+theorem mirror_invariant_step (hn : cf.nx = 2 * m) (hm : 0 < m) (hf : FarSym cf)
+    (mt : Mat K) (hx : XInv mt) (hmet : MetricSym cf m m) (jE jH E H : V3 K)
+    (sE : SymE m m E) (sH : SymH m m H) (sJE : SymE m m jE) (sJH : SymH m m jH) :
+    SymE m m (forward cf mt jE jH E H).1 ∧ SymH m m (forward cf mt jE jH E H).2 := by
+  have h1 := stepE_sym hn m (le_refl m) (fun _ => hf.pecHi) mt hx hmet jE E H sE sH sJE
+  exact ⟨h1, stepH_sym_edge hn hm hf mt hx hmet jH _ H h1 sH sJH
+    (fun j k => (stepE_farPec_zero hf mt jE E H j k).1) (fun j k => (stepE_farPec_zero hf mt jE E H j k).2)⟩
+
+/-- **mirror_invariant**: parity-symmetric initial data, x-invariant materials, parity-symmetric sources and metric,
+mirror-symmetric far faces ⇒ the full run is parity-symmetric after EVERY number of steps. -/
+theorem mirror_invariant (hn : cf.nx = 2 * m) (hm : 0 < m) (hf : FarSym cf)
+    (mt : Mat K) (hx : XInv mt) (hmet : MetricSym cf m m) (jE jH E H : V3 K)
+    (sE : SymE m m E) (sH : SymH m m H) (sJE : SymE m m jE) (sJH : SymH m m jH) (n : Nat) :
+    SymE m m (steps cf mt jE jH n (E, H)).1 ∧ SymH m m (steps cf mt jE jH n (E, H)).2 := by
+  induction n with
+  | zero => exact ⟨sE, sH⟩
+  | succ n ih => exact mirror_invariant_step hn hm hf mt hx hmet jE jH _ _ ih.1 ih.2 sJE sJH
+
+/-- **C33_symmetric_far_all_steps**: with mirror-symmetric far faces there is no light cone: the reduced run equals
+the upper half of the full run on every layer after every number of steps. -/
+theorem C33_symmetric_far_all_steps {b : AxisBC K} {sf sb : Nat → K} (h : RedOK cf m b sf sb) (hf : FarSym cf)
+    (mt : Mat K) (hx : XInv mt) (hmet : MetricSym cf m m)
+    (jE jH Er Hr E H : V3 K) (sE : SymE m m E) (sH : SymH m m H) (sJE : SymE m m jE) (sJH : SymH m m jH)
+    (hE : AgreeFrom m 0 Er E) (hH : AgreeFrom m 0 Hr H) (n : Nat) :
+    AgreeFrom m 0 (steps (redCfg cf m b sf sb) (upperMat 0 m mt) (upperV 0 m jE) (upperV 0 m jH) n (Er, Hr)).1
+        (steps cf mt jE jH n (E, H)).1 ∧
+    AgreeFrom m 0 (steps (redCfg cf m b sf sb) (upperMat 0 m mt) (upperV 0 m jE) (upperV 0 m jH) n (Er, Hr)).2
+        (steps cf mt jE jH n (E, H)).2 := by
+  induction n with
+  | zero => exact ⟨hE, hH⟩
+  | succ n ih =>
+    obtain ⟨s1, s2⟩ := mirror_invariant h.hn h.hm hf mt hx hmet jE jH E H sE sH sJE sJH n
+    exact forward_agree_plane h mt jE jH _ _ _ _ (planeInv_of_sym h.hm s1 s2 sJE) ih.1 ih.2
+
+/-- the invariant for a plane normal to y (read through `rotV`) -/
+theorem mirror_invariant_y (cf : Cfg K) (hn : cf.ny = 2 * m) (hm : 0 < m) (hf : FarSym (rotCfg cf))
+    (mt : Mat K) (hx : XInv (rotMat mt)) (hmet : MetricSym (rotCfg cf) m m) (jE jH E H : V3 K)
+    (sE : SymE m m (rotV E)) (sH : SymH m m (rotV H)) (sJE : SymE m m (rotV jE)) (sJH : SymH m m (rotV jH)) (n : Nat) :
+    SymE m m (rotV (steps cf mt jE jH n (E, H)).1) ∧ SymH m m (rotV (steps cf mt jE jH n (E, H)).2) := by
+  have key := mirror_invariant (cf := rotCfg cf) hn hm hf (rotMat mt) hx hmet (rotV jE) (rotV jH) (rotV E) (rotV H)
+    sE sH sJE sJH n
+  rwa [steps_rot] at key
+
+/-- the invariant for a plane normal to z -/
+theorem mirror_invariant_z (cf : Cfg K) (hn : cf.nz = 2 * m) (hm : 0 < m) (hf : FarSym (rotCfg (rotCfg cf)))
+    (mt : Mat K) (hx : XInv (rotMat (rotMat mt))) (hmet : MetricSym (rotCfg (rotCfg cf)) m m) (jE jH E H : V3 K)
+    (sE : SymE m m (rotV (rotV E))) (sH : SymH m m (rotV (rotV H))) (sJE : SymE m m (rotV (rotV jE)))
+    (sJH : SymH m m (rotV (rotV jH))) (n : Nat) :
+    SymE m m (rotV (rotV (steps cf mt jE jH n (E, H)).1)) ∧ SymH m m (rotV (rotV (steps cf mt jE jH n (E, H)).2)) := by
+  have key := mirror_invariant (cf := rotCfg (rotCfg cf)) hn hm hf (rotMat (rotMat mt)) hx hmet (rotV (rotV jE))
+    (rotV (rotV jH)) (rotV (rotV E)) (rotV (rotV H)) sE sH sJE sJH n
+  rwa [steps_rot, steps_rot] at key
+
+
+/-! ### several planes: the one-plane theorems compose -/
+
+/-- **C33_two_planes_xy**: two electric planes (normal to x and to y) at once.  The quarter domain
+`reduceCfg 1 (reduceCfg 0 cf)` — what `place_objects` builds for `config.symmetry = (-1,-1,0)`: one PEC wall per plane —
+run on the restriction of the data to the quadrant equals the full run on the quadrant, on every cell outside the
+light cones of the two discarded halves' far faces; derived from the one-plane theorems `C33_reduceCfg` (full → x-half)
+and `C33_reduceCfg_y` (x-half → quadrant: the x-half domain is again a Yee configuration, and restriction along x
+keeps the parity about the y plane).  Together with the two parity windows of the full run (same two theorems applied
+to `cf` itself) this is "unfold of unfold = full". -/
+theorem C33_two_planes_xy (cf : Cfg K) (mx my : Nat) (hmx : 0 < mx) (hmy : 0 < my)
+    (hnx : cf.nx = 2 * mx) (hny : cf.ny = 2 * my) (hfx : cf.bx.wrap = false) (hfy : cf.by_.wrap = false)
+    (mt : Mat K) (hxx : XInv mt) (hxy : XInv (rotMat mt))
+    (hmetx : MetricSym cf mx mx) (hmety : MetricSym (rotCfg cf) my my) (jE jH E H : V3 K)
+    (sEx : SymE mx mx E) (sHx : SymH mx mx H) (sJEx : SymE mx mx jE) (sJHx : SymH mx mx jH)
+    (sEy : SymE my my (rotV E)) (sHy : SymH my my (rotV H)) (sJEy : SymE my my (rotV jE)) (sJHy : SymH my my (rotV jH))
+    (n : Nat) :
+    let R := steps (reduceCfg 1 (reduceCfg 0 cf)) (upperMat 1 my (upperMat 0 mx mt))
+      (upperV 1 my (upperV 0 mx jE)) (upperV 1 my (upperV 0 mx jH)) n
+      (upperV 1 my (upperV 0 mx E), upperV 1 my (upperV 0 mx H))
+    let F := steps cf mt jE jH n (E, H)
+    ∀ i j k, n + farDelay cf - mx ≤ i → i < mx → n + farDelay (rotCfg cf) - my ≤ j → j < my →
+      (R.1.x i j k = F.1.x (mx + i) (my + j) k ∧ R.1.y i j k = F.1.y (mx + i) (my + j) k ∧
+        R.1.z i j k = F.1.z (mx + i) (my + j) k) ∧
+      (R.2.x i j k = F.2.x (mx + i) (my + j) k ∧ R.2.y i j k = F.2.y (mx + i) (my + j) k ∧
+        R.2.z i j k = F.2.z (mx + i) (my + j) k) := by
+  intro R F i j k hi hi' hj hj'
+  obtain ⟨_, ax1, ax2⟩ := C33_reduceCfg cf mx hmx hnx hfx mt hxx hmetx jE jH E H sEx sHx sJEx sJHx n
+  obtain ⟨_, ay1, ay2⟩ := C33_reduceCfg_y (reduceCfg 0 cf) my hmy hny hfy (upperMat 0 mx mt) (hxy.upper_x mx)
+    ⟨hmety.sf, hmety.sb⟩ (upperV 0 mx jE) (upperV 0 mx jH) (upperV 0 mx E) (upperV 0 mx H)
+    (sEy.upper_x mx) (sHy.upper_x mx) (sJEy.upper_x mx) (sJHy.upper_x mx) n
+  obtain ⟨x1, y1, z1⟩ := ax1 i hi hi' (my + j) k
+  obtain ⟨x2, y2, z2⟩ := ax2 i hi hi' (my + j) k
+  obtain ⟨p1, q1, r1⟩ := ay1 j hj hj' k i
+  obtain ⟨p2, q2, r2⟩ := ay2 j hj hj' k i
+  exact ⟨⟨r1.trans x1, p1.trans y1, q1.trans z1⟩, ⟨r2.trans x2, p2.trans y2, q2.trans z2⟩⟩
+
+
+/-- **C33_three_planes**: three electric planes at once (`config.symmetry = (-1,-1,-1)`): the octant domain
+`reduceCfg 2 (reduceCfg 1 (reduceCfg 0 cf))` run on the restriction of the data to the octant equals the full run on the
+octant, outside the three light cones; `C33_two_planes_xy` followed by `C33_reduceCfg_z` on the quarter domain. -/
+theorem C33_three_planes (cf : Cfg K) (mx my mz : Nat) (hmx : 0 < mx) (hmy : 0 < my) (hmz : 0 < mz)
+    (hnx : cf.nx = 2 * mx) (hny : cf.ny = 2 * my) (hnz : cf.nz = 2 * mz)
+    (hfx : cf.bx.wrap = false) (hfy : cf.by_.wrap = false) (hfz : cf.bz.wrap = false)
+    (mt : Mat K) (hxx : XInv mt) (hxy : XInv (rotMat mt)) (hxz : XInv (rotMat (rotMat mt)))
+    (hmetx : MetricSym cf mx mx) (hmety : MetricSym (rotCfg cf) my my) (hmetz : MetricSym (rotCfg (rotCfg cf)) mz mz)
+    (jE jH E H : V3 K)
+    (sEx : SymE mx mx E) (sHx : SymH mx mx H) (sJEx : SymE mx mx jE) (sJHx : SymH mx mx jH)
+    (sEy : SymE my my (rotV E)) (sHy : SymH my my (rotV H)) (sJEy : SymE my my (rotV jE)) (sJHy : SymH my my (rotV jH))
+    (sEz : SymE mz mz (rotV (rotV E))) (sHz : SymH mz mz (rotV (rotV H))) (sJEz : SymE mz mz (rotV (rotV jE)))
+    (sJHz : SymH mz mz (rotV (rotV jH))) (n : Nat) :
+    let U := fun V : V3 K => upperV 2 mz (upperV 1 my (upperV 0 mx V))
+    let R := steps (reduceCfg 2 (reduceCfg 1 (reduceCfg 0 cf))) (upperMat 2 mz (upperMat 1 my (upperMat 0 mx mt)))
+      (U jE) (U jH) n (U E, U H)
+    let F := steps cf mt jE jH n (E, H)
+    ∀ i j k, n + farDelay cf - mx ≤ i → i < mx → n + farDelay (rotCfg cf) - my ≤ j → j < my →
+      n + farDelay (rotCfg (rotCfg cf)) - mz ≤ k → k < mz →
+      (R.1.x i j k = F.1.x (mx + i) (my + j) (mz + k) ∧ R.1.y i j k = F.1.y (mx + i) (my + j) (mz + k) ∧
+        R.1.z i j k = F.1.z (mx + i) (my + j) (mz + k)) ∧
+      (R.2.x i j k = F.2.x (mx + i) (my + j) (mz + k) ∧ R.2.y i j k = F.2.y (mx + i) (my + j) (mz + k) ∧
+        R.2.z i j k = F.2.z (mx + i) (my + j) (mz + k)) := by
+  intro U R F i j k hi hi' hj hj' hk hk'
+  obtain ⟨⟨x1, y1, z1⟩, ⟨x2, y2, z2⟩⟩ := C33_two_planes_xy cf mx my hmx hmy hnx hny hfx hfy mt hxx hxy hmetx hmety
+    jE jH E H sEx sHx sJEx sJHx sEy sHy sJEy sJHy n i j (mz + k) hi hi' hj hj'
+  obtain ⟨_, az1, az2⟩ := C33_reduceCfg_z (reduceCfg 1 (reduceCfg 0 cf)) mz hmz hnz hfz
+    (upperMat 1 my (upperMat 0 mx mt)) (hxz.upper_xy mx my) ⟨hmetz.sf, hmetz.sb⟩
+    (upperV 1 my (upperV 0 mx jE)) (upperV 1 my (upperV 0 mx jH)) (upperV 1 my (upperV 0 mx E))
+    (upperV 1 my (upperV 0 mx H)) (sEz.upper_xy mx my) (sHz.upper_xy mx my) (sJEz.upper_xy mx my)
+    (sJHz.upper_xy mx my) n
+  obtain ⟨p1, q1, r1⟩ := az1 k hk hk' i j
+  obtain ⟨p2, q2, r2⟩ := az2 k hk hk' i j
+  exact ⟨⟨q1.trans x1, r1.trans y1, p1.trans z1⟩, ⟨q2.trans x2, r2.trans y2, p2.trans z2⟩⟩
+
 end
 
 /-! ### non-vacuity: a concrete non-trivial parity-symmetric state on a 4×2×2 domain (m = 2), far faces PMC / none -/
@@ -280,5 +416,36 @@ example : rotV (unrotV exE) = exE := rfl
 example : rotV (rotV (unrotV (unrotV exH))) = exH := rfl
 example : SymE (K := ℚ) 2 2 (constV 0) ∧ SymH (K := ℚ) 2 2 (constV 0) := by
   constructor <;> constructor <;> intros <;> simp [constV]
+
+
+/-! ### non-vacuity of the invariant and of the several-plane theorems -/
+
+/-- mirror-symmetric far faces: PEC layer at the min x face, nothing at the max face -/
+def exCfgSym : Cfg ℚ := { exCfg with bx := ⟨false, 1, 1, true, false, false, false⟩, ny := 4, by_ := ⟨false, 1, 1, false, true, false, false⟩ }
+example : FarSym exCfgSym := ⟨rfl, rfl, rfl, rfl⟩
+
+/-- a state with the PEC-mirror parity about the plane x = 2 AND about the plane y = 2 of a 4×4×2 domain -/
+def exE2 : V3 ℚ :=
+  { x := fun i j _ => ((i : ℚ) - 3 / 2) ^ 2 * ((j : ℚ) - 2), y := fun i j _ => ((i : ℚ) - 2) * ((j : ℚ) - 3 / 2) ^ 2,
+    z := fun i j k => ((i : ℚ) - 2) * ((j : ℚ) - 2) * (1 + k) }
+def exH2 : V3 ℚ :=
+  { x := fun i j _ => ((i : ℚ) - 2) * ((j : ℚ) - 3 / 2) ^ 2, y := fun i j _ => ((i : ℚ) - 3 / 2) ^ 2 * ((j : ℚ) - 2),
+    z := fun i j k => ((i : ℚ) - 3 / 2) ^ 2 * ((j : ℚ) - 3 / 2) ^ 2 + k }
+
+example : SymE 2 2 exE2 ∧ SymE 2 2 (rotV exE2) := by
+  refine ⟨⟨?_, ?_, ?_, ?_, ?_⟩, ⟨?_, ?_, ?_, ?_, ?_⟩⟩
+  all_goals first
+    | (intro d j k hd; interval_cases d <;> norm_num [exE2, rotV, rotF] <;> (try ring))
+    | (intro j k _; norm_num [exE2, rotV, rotF])
+
+example : SymH 2 2 exH2 ∧ SymH 2 2 (rotV exH2) := by
+  refine ⟨⟨?_, ?_, ?_, ?_⟩, ⟨?_, ?_, ?_, ?_⟩⟩
+  all_goals first
+    | (intro d j k hd; interval_cases d <;> norm_num [exH2, rotV, rotF] <;> (try ring))
+    | (intro j k _; norm_num [exH2, rotV, rotF])
+
+example : MetricSym exCfgSym 2 2 ∧ MetricSym (rotCfg exCfgSym) 2 2 := ⟨⟨fun _ _ => rfl, fun _ _ _ => rfl⟩, ⟨fun _ _ => rfl, fun _ _ _ => rfl⟩⟩
+example : XInv (rotMat (K := ℚ) ⟨constV 2, constV 1, none, none⟩) := by
+  constructor <;> intros <;> first | rfl | (simp [rotMat] at *)
 
 end Fdtdx.C33
